@@ -31,6 +31,22 @@ CHECKS = {
          "R10: observed classification (continue / fail-at-classification / held as trampoline with pay bolt11+amount) equals the reference over the invoice x signature x hints x hash x amount-field x flag product.", SIM_NOTE),
  "C11": ("sim", "exploration", "virtual-time monitor on Fail timestamps relative to the stored-state read",
          "R11a incomplete sets get 0x2019 and no pay; R11b not before read+mpp; R11c not later than read+mpp+5ms; R11d restart grants at most one further timeout (aged stored histories).", SIM_NOTE + " Wall clock inside the plugin only enters R11d (tolerance 1 s + run wall time)."),
+ "C12": ("pure+sim", "exploration", "reference oracle (u128 predicate) over boundary cross product and frontier-biased random inputs in debug, release and Miri builds; SIM monitor for the failure bytes",
+         "R12a fee_sufficient == exact u128 predicate and no panic, in an overflow-checking build, a wrapping build and (thorough) under Miri; R12b every 0x201a failure carries exactly the configured policy; R12c first HTLC failing the fee/expiry test is answered with it. One known finding (mul-overflow conservative false) is keyed by signature.", "Trusted base: the u128 reference predicate; catch_unwind observes panics. " + SIM_NOTE),
+ "C14": ("sim", "exploration", "differential runtime monitoring: B alone vs B next to A frozen at each suspension point, same canonical schedule",
+         "R14a B's RPC sequence, replies, answers identical and not delayed; R14b table lock free at every quiescence while A is frozen; R14c every datastore key names an offered hash and calls for B never mention A; 9 freeze points x 92 B scenarios (x12 seeds thorough).", SIM_NOTE),
+ "C15": ("prov", "fault_enumeration", "depth-first enumeration of all interleavings of RPC effects with part resolutions against the real wait_payment; oracle at the instant of return",
+         "R15a preimage only from a complete part; R15b 'none' only if no part pending/complete at return; R15c documented part-level codes never abort the wait. Exhaustive for <=3 parts in every status mix (4 pending in thorough) x codes 202/203/204/208/209.", "Trusted base: SimNode sendpay semantics (assumptions 1-4); effect and reply fused."),
+ "C16": ("prov", "fault_enumeration", "depth-first enumeration of pay outcomes x part configurations x resolution orders against the real pay wrapper; oracle at the instant of return",
+         "R16a Ok only with the preimage of a complete part; R16b Err only when no part pending/complete and no pay running; every outcome {complete,pending,failed,failed+warning,rpc error} at every point of a pay creating up to 2 (3 thorough) parts.", "Trusted base: SimNode pay/sendpay semantics (assumptions 1-4)."),
+ "C17": ("driver+e2e", "exploration", "byte-stream chunking and handler-completion-order exploration of the real plugin driver over an in-memory pipe; real binary with trace logging under a fake lightningd",
+         "R17a each request handed to its handler exactly once in decode order; R17b exactly one reply per id carrying that request's result; R17c output is complete JSON documents each followed by a blank line; chunks cut at every offset around separators, inside multi-byte UTF-8, 1-byte reads; up to 64 concurrent calls finished out of order; E2E adds concurrent log notifications through the shared writer.", "Trusted base: tokio duplex pipe semantics; the fake lightningd's own framing in E2E."),
+ "C18": ("pure", "exploration", "reference codec oracle over exhaustive small inputs and structure-aware generated inputs; debug, release and Miri builds",
+         "R18a no panic from from_bytes/try_from/to_bytes/get_tu64 on any input; R18b decode-encode identity on valid BOLT streams (and the length-prefixed entry point agrees); R18c encode-decode identity; R18d tu64 value for 0-8 bytes, rejection above. Exhaustive for all byte strings <=3 bytes and all strings <=7 over a 7-letter boundary alphabet.", "Trusted base: the independent BigSize/TLV reference codec in the harness."),
+ "C19": ("e2e", "exploration", "start-up and probe sessions of the real binary under a fake lightningd for pairwise option assignments; reference validity predicate",
+         "R19a refuse (exit non-zero, no init ack) iff a value is out of range or policy delta <= safety delta, else acknowledge and keep serving; R19b accepted values are the ones applied: 201a bytes, pay retry_for/maxdelay/maxfee/label, self-route-hint flag, MPP timing (one-sided).", "Trusted base: the fake lightningd; wall clock used one-sidedly (late = inconclusive)."),
+ "C20": ("block+sim", "exploration", "online monitor of current_height against the running maximum of heights told, under virtual time, with lost/duplicated/stale notifications and failing polls; bounded catch-up check",
+         "R20a current_height == max(heights told) after every step (never decreases); R20b with notifications lost and polls answered, height catches up within one poll interval (61 s virtual).", "Trusted base: tokio paused clock; getinfo replies are snapshots at evaluation time."),
  "C13": ("sim", "exploration", "reference label Continue vs observed answer, RPC log and table size in the delivery window",
          "R13a continue at once, R13b no RPC in the delivery window, R13c nothing retained, R13d payload rewrite only drops record 16 (independent BigSize codec).", SIM_NOTE),
 }
@@ -64,6 +80,7 @@ def main():
             "add_only": True,
         },
         "engines": [
+            {"name": "prov/block/driver/c14", "path": "/verif/harness", "serves_properties": ["C14","C15","C16","C17","C20"], "kind_free_text": "real provider / block watcher / plugin driver driven directly under the paused clock with enumerated or random schedules"},
             {"name": "sim", "path": "/verif/harness", "serves_properties": [p for p, c in CHECKS.items() if "sim" in c[0]], "kind_free_text": "real /repo/src modules under a simulated lightningd, paused tokio clock, seeded hostile scheduler, online monitors"},
             {"name": "e2e", "path": "/verif/harness", "serves_properties": [p for p, c in CHECKS.items() if "e2e" in c[0]], "kind_free_text": "real trampoline binary as child process under a fake lightningd (stdio + unix socket)"},
             {"name": "pure", "path": "/verif/harness-pure", "serves_properties": [p for p, c in CHECKS.items() if "pure" in c[0]], "kind_free_text": "direct calls of tlv/messages functions with reference oracles; native debug, native release, Miri"},
